@@ -262,7 +262,12 @@ theorem ato_eq_partial (t : IntTy) (h8 : 8 ≤ t.bits) (s : List Nat) (hbytes : 
   obtain ⟨hv, _⟩ := strto_spec_eq t (cstrOf s) 10 (by omega) h1 h2 h3 h4
   simp only [ok_bind, hv]
 
-example : ato ⟨32, true⟩ [32, 45, 49, 50, 120, 0, 57] = .ok (-12) := by rfl
+/-- non-vacuity: `" -12x\\0 9"` satisfies the hypotheses, and the value is -12 -/
+example : Spec.plusSign (cstrOf [32, 45, 49, 50, 120, 0, 57]) = false ∧
+    Spec.unsignedMinus ⟨32, true⟩ (cstrOf [32, 45, 49, 50, 120, 0, 57]) = false ∧
+    (Spec.strto ⟨32, true⟩ (cstrOf [32, 45, 49, 50, 120, 0, 57]) 10).erange = false ∧
+    ato ⟨32, true⟩ [32, 45, 49, 50, 120, 0, 57] = .ok (-12) := by
+  refine ⟨by rfl, by rfl, by rfl, by rfl⟩
 
 /-- each excluded class contains an input on which the model (= the code) and the C grammar differ -/
 theorem strto_plus_counterexample :
@@ -292,6 +297,9 @@ theorem strto_minus_counterexample :
     which is least significant first) -/
 theorem spec_digits_standard (b : Nat) (hb : 2 ≤ b) (n : Nat) :
     Spec.digits b n = (Nat.digits b n).reverse := digits_eq_natDigits hb n
+
+example : Spec.digits 16 255 = [15, 15] ∧ Spec.render (-255) 16 = [45, 102, 102] := by
+  constructor <;> simp [Spec.digits, Spec.render, Spec.digitChar]
 
 /-- the value function of the spec inverts the digit list of the spec -/
 theorem spec_value_of_digits (b : Nat) (hb : 2 ≤ b ∧ b ≤ 36) (n : Nat) :
